@@ -24,7 +24,16 @@
 //!   listing: fresh replicas (and one refreshed replica) on the same files through an adapter whose list_objects
 //!            results are reversed / rotated / sorted descending / list child blocks before their parents give the
 //!            same state as through the plain adapter.
-//! Everything runs in a worker thread under a 10 s watchdog (`hang:` case, oracle stops).
+//!   damage-after-index:<pack>:<kind>:<order>  (history "damage" = the long history with pairwise distinct values, so
+//!            that no value digest lives in two packs) an order that delivers a pack strictly before the block listing
+//!            it; AFTER the refresh that indexed the pack (or, ".late", just before its block is delivered) the pack is
+//!            damaged in storage (one byte changed / truncated / item deleted), delivery goes on.  From then on, after
+//!            every delivered file: refresh is Ok or Err (no panic); Applied blocks == blocks complete over the INTACT
+//!            items (the damaged pack counts as missing: its block and all descendants stay incomplete); state ==
+//!            state of a replica holding only those blocks and the intact packs; get_value of every object equals that
+//!            replica's; when the block arrives and at the end a FRESH Melda::new on the damaged storage is Err or shows
+//!            the same state.
+//! Everything runs in worker threads under a 10 s watchdog (`hang:` case, oracle stops).
 use super::orch::{self, Dyn, Listing, ListingAdapter, Out, Rng};
 use super::FailureClasses;
 use crate::Report;
@@ -777,12 +786,12 @@ pub fn run(thorough: bool, seed: u64) -> Report {
     let mut rep = Report::new(
         "delivery",
         &(if thorough {
-            "one fixed source history (A: d1; B melds; A: d2a || B: d2b; A melds, d3 with parents {d2a,d2b}; 4 blocks + 4 packs = 8 item files): ALL 8! delivery orders of the files into an empty adapter observed by one long-lived replica, refresh + 3 checks after every delivered file; the same history extended by a pack-less block d4 (9 files): 20000 distinct seeded orders; listing-order variants (reversed, rotated by 1, rotated by half, sorted descending, child blocks first) on every subset of the 8 files and on the full set + 64 seeded subsets of the 9 files"
+            "one fixed source history (A: d1; B melds; A: d2a || B: d2b; A melds, d3 with parents {d2a,d2b}; 4 blocks + 4 packs = 8 item files): ALL 8! delivery orders of the files into an empty adapter observed by one long-lived replica, refresh + 3 checks after every delivered file; the same history extended by a pack-less block d4 (9 files): 20000 distinct seeded orders; listing-order variants (reversed, rotated by 1, rotated by half, sorted descending, child blocks first) on every subset of the 8 files and on the full set + 64 seeded subsets of the 9 files; damage-after-index: every pack listed by a block (p1, p2a, p2b, p3) x 18 damages (xor-1 at the middle and at 8 evenly spread positions, 5 replacement bytes incl. first and last byte, truncation to 0 / half / len-1, deletion) x {right after indexing, just before the block arrives} x 60 seeded orders with the pack before its block"
         } else {
-            "one fixed source history (A: d1; B melds; A: d2a || B: d2b; A melds, d3 with parents {d2a,d2b}; 4 blocks + 4 packs = 8 item files): 600 seeded orders out of the 720 that deliver d1 and its pack first (both ways) followed by a permutation of the other 6 files, plus 120 seeded permutations of all 8 files, plus 150 seeded permutations of the 9 files of the same history extended by a pack-less block d4, into an empty adapter observed by one long-lived replica, refresh + 3 checks after every delivered file; listing-order variants (reversed, rotated by 1, rotated by half, sorted descending, child blocks first) on the full sets and 6 seeded subsets"
+            "one fixed source history (A: d1; B melds; A: d2a || B: d2b; A melds, d3 with parents {d2a,d2b}; 4 blocks + 4 packs = 8 item files): 600 seeded orders out of the 720 that deliver d1 and its pack first (both ways) followed by a permutation of the other 6 files, plus 120 seeded permutations of all 8 files, plus 150 seeded permutations of the 9 files of the same history extended by a pack-less block d4, into an empty adapter observed by one long-lived replica, refresh + 3 checks after every delivered file; listing-order variants (reversed, rotated by 1, rotated by half, sorted descending, child blocks first) on the full sets and 6 seeded subsets; damage-after-index: every pack listed by a block (p1, p2a, p2b, p3) x {one byte xor 1, truncated to half, deleted} x {right after indexing, just before the block arrives} x 8 seeded orders with the pack before its block"
         })
         .to_string(),
-        "enumeration of delivery orders (seeded where stated); one case per order, step and check (refresh-vs-reload / causal / status) and per listing variant and file set; non-trivial = a delivered block is causally incomplete at this step or was at the previous one; 10 s watchdog per worker thread (thorough: orders spread over 3 threads)",
+        "enumeration of delivery orders (seeded where stated); one case per order, step and check (refresh-vs-reload / causal / status), per listing variant and file set, and per damage scenario (all its steps); non-trivial = a delivered block is causally incomplete at this step or was at the previous one; 10 s watchdog per worker thread (thorough: orders spread over 3 threads)",
     );
     if std::env::var_os("RAYON_NUM_THREADS").is_none() {
         std::env::set_var("RAYON_NUM_THREADS", "2");
